@@ -1836,6 +1836,18 @@ fn gen_c14(r: &mut Rng, seed: u64) -> Scenario {
     tags.push(format!("id{}", match &spec.build_id { None => "none".to_string(), Some(i) => i.len().to_string() }));
     tags.push(format!("so{}", spec.soname.is_some() as u8));
     tags.push(format!("sec{}", spec.sections as u8));
+    // processed by a post-link tool: note and string table in an appended segment whose virtual
+    // address differs from its file offset
+    if !non_pie && !spec.sections_at_end && r.chance(1, 5) {
+        spec.moved_tables = true;
+        tags.push("tables-moved".into());
+    }
+    // a library linked at a non-zero base address (-Ttext-segment / --image-base): SONAME kept
+    let based = !non_pie && !spec.moved_tables && r.chance(1, 8);
+    if based {
+        spec.link_base = 0x20_0000;
+        tags.push("nonzero-link-base".into());
+    }
     let img = crate::elfgen::build(&spec);
     let base = if non_pie { 0x40_0000 } else { LIB_BASE + 0x4000_0000 };
     let path = "/opt/c14/libtarget.so.1.2.3";
@@ -1868,21 +1880,26 @@ fn gen_c14(r: &mut Rng, seed: u64) -> Scenario {
     mem.resize(img.mapped_len as usize, 0);
     if well_formed && r.coin() {
         if let Some(o) = img.dt_strtab_val_off {
-            let vaddr = base + img.dynstr_off;
+            let vaddr = base + img.dynstr_vaddr;
             mem[o as usize..o as usize + 8].copy_from_slice(&vaddr.to_le_bytes());
             tags.push("relocated".into());
         }
     }
-    for (off, len, perms) in [(0u64, 0x1000u64, "r--p"), (img.text_off, img.text_len, "r-xp"), (img.data_off, 0x1000, "rw-p")] {
+    let mut segs: Vec<(u64, u64, u64, &str)> = vec![(0u64, 0u64, 0x1000u64, "r--p"), (img.text_off, img.text_off, img.text_len, "r-xp"), (img.data_off, img.data_vaddr, 0x1000, "rw-p")];
+    if let Some((mo, mv, ml)) = img.moved {
+        segs.push((mo, mv, ml, "r--p"));
+    }
+    for (off, vaddr, len, perms) in segs {
+        let bytes: Vec<u8> = (0..len as usize).map(|k| mem.get(off as usize + k).copied().unwrap_or(0)).collect();
         b.world.regions.push(RegionSpec {
-            start: base + off,
+            start: base + vaddr,
             len,
             perms: perms.into(),
             offset: off,
             inode: 4242,
             name: B::s(path),
             deleted: false,
-            content: Content::Bytes(B(mem[off as usize..(off + len) as usize].to_vec())),
+            content: Content::Bytes(B(bytes)),
         });
     }
     b.world.regions.sort_by_key(|x| x.start);
@@ -1999,7 +2016,7 @@ fn gen_c08(r: &mut Rng, seed: u64) -> Scenario {
     }
     // a library whose section table is not mapped and whose note is only in a section
     if r.chance(1, 3) {
-        let spec = crate::elfgen::ElfSpec { build_id: Some(r.bytes(20)), note_in_phdr: false, soname: Some("libfileonly.so.2".into()), sections: true, text_pages: 1, text_seed: r.next(), dt_debug: false, dyn_pad: 0, with_pt_phdr: false, sections_at_end: true, rodata_before_text: false, data_gap_pages: 0, link_base: 0, text_sec_skip: 0 };
+        let spec = crate::elfgen::ElfSpec { build_id: Some(r.bytes(20)), note_in_phdr: false, soname: Some("libfileonly.so.2".into()), sections: true, text_pages: 1, text_seed: r.next(), dt_debug: false, dyn_pad: 0, with_pt_phdr: false, sections_at_end: true, rodata_before_text: false, data_gap_pages: 0, link_base: 0, text_sec_skip: 0, moved_tables: false };
         let img = crate::elfgen::build(&spec);
         let base = LIB_BASE + 0x5000_0000;
         let path = "/usr/lib/libfileonly.so.2.0";
@@ -2016,7 +2033,7 @@ fn gen_c08(r: &mut Rng, seed: u64) -> Scenario {
     }
     // a library embedded in an archive: executable mapping from a non-zero file offset
     if r.chance(1, 3) {
-        let spec = crate::elfgen::ElfSpec { build_id: Some(r.bytes(20)), note_in_phdr: true, soname: Some("libembedded.so".into()), sections: r.coin(), text_pages: 1, text_seed: r.next(), dt_debug: false, dyn_pad: 0, with_pt_phdr: false, sections_at_end: false, rodata_before_text: false, data_gap_pages: 0, link_base: 0, text_sec_skip: 0 };
+        let spec = crate::elfgen::ElfSpec { build_id: Some(r.bytes(20)), note_in_phdr: true, soname: Some("libembedded.so".into()), sections: r.coin(), text_pages: 1, text_seed: r.next(), dt_debug: false, dyn_pad: 0, with_pt_phdr: false, sections_at_end: false, rodata_before_text: false, data_gap_pages: 0, link_base: 0, text_sec_skip: 0, moved_tables: false };
         let img = crate::elfgen::build(&spec);
         let base = LIB_BASE + 0x6000_0000;
         let path = "/data/app/base.apk";
@@ -2032,7 +2049,7 @@ fn gen_c08(r: &mut Rng, seed: u64) -> Scenario {
     // a statically linked, non-position-independent program image: every virtual address in it is
     // absolute (link base 0x400000) and differs from the file offset
     if r.chance(1, 3) {
-        let spec = crate::elfgen::ElfSpec { build_id: Some(r.bytes(20)), note_in_phdr: true, soname: None, sections: r.coin(), text_pages: 1, text_seed: r.next(), dt_debug: false, dyn_pad: 0, with_pt_phdr: true, sections_at_end: false, rodata_before_text: false, data_gap_pages: 0, link_base: 0x40_0000, text_sec_skip: 0 };
+        let spec = crate::elfgen::ElfSpec { build_id: Some(r.bytes(20)), note_in_phdr: true, soname: None, sections: r.coin(), text_pages: 1, text_seed: r.next(), dt_debug: false, dyn_pad: 0, with_pt_phdr: true, sections_at_end: false, rodata_before_text: false, data_gap_pages: 0, link_base: 0x40_0000, text_sec_skip: 0, moved_tables: false };
         let img = crate::elfgen::build(&spec);
         let base = 0x40_0000u64;
         let path = "/opt/tools/static-helper";
@@ -2055,7 +2072,7 @@ fn gen_c08(r: &mut Rng, seed: u64) -> Scenario {
         push_tags(&mut tags, &["non-elf"]);
     }
     if r.chance(1, 4) {
-        let spec = crate::elfgen::ElfSpec { build_id: Some(vec![0u8; 20]), note_in_phdr: true, soname: None, sections: true, text_pages: 1, text_seed: 5, dt_debug: false, dyn_pad: 0, with_pt_phdr: false, sections_at_end: false, rodata_before_text: false, data_gap_pages: 0, link_base: 0, text_sec_skip: 0 };
+        let spec = crate::elfgen::ElfSpec { build_id: Some(vec![0u8; 20]), note_in_phdr: true, soname: None, sections: true, text_pages: 1, text_seed: 5, dt_debug: false, dyn_pad: 0, with_pt_phdr: false, sections_at_end: false, rodata_before_text: false, data_gap_pages: 0, link_base: 0, text_sec_skip: 0, moved_tables: false };
         let img = crate::elfgen::build(&spec);
         let base = LIB_BASE + 0x7000_0000;
         let path = "/usr/lib/libzeroid.so";
